@@ -175,9 +175,10 @@ static void gfConfCommand() {
   int pairs = (int)R->range(1, 2); pl.push_back((unsigned char)pairs);
   for (int q = 0; q < pairs; q++) {
     pl.push_back((unsigned char)(R->chance(1, 8) ? R->below(5) : q + 1));
-    int target = (int)R->range(60, 78), utf8 = 0; std::vector<unsigned> cs;
-    while (utf8 < target && cs.size() < 100) { unsigned k = (unsigned)R->below(10); unsigned c = k < 3 ? (unsigned)R->range(0x20, 0x7e) : (k < 5 ? (unsigned)R->range(0x80, 0x7ff) : (unsigned)R->range(0x800, 0xffff)); cs.push_back(c); utf8 += c < 0x80 ? 1 : c < 0x800 ? 2 : 3; }
-    bool ucs = R->chance(5, 6);
+    int target = R->chance(1, 3) ? (int)R->range(1, 20) : (R->chance(1, 3) ? (int)R->range(79, 110) : (int)R->range(60, 78)), utf8 = 0; std::vector<unsigned> cs;
+    bool plain = R->chance(1, 3);   // 7-bit text only
+    while (utf8 < target && cs.size() < 100) { unsigned k = plain ? 0 : (unsigned)R->below(10); unsigned c = k < 3 ? (unsigned)R->range(0x20, 0x7e) : (k < 5 ? (unsigned)R->range(0x80, 0x7ff) : (unsigned)R->range(0x800, 0xffff)); cs.push_back(c); utf8 += c < 0x80 ? 1 : c < 0x800 ? 2 : 3; }
+    bool ucs = R->chance(1, 2);
     if (ucs) { pl.push_back((unsigned char)(2 + 2 * cs.size())); pl.push_back(0); for (unsigned c : cs) { pl.push_back((unsigned char)c); pl.push_back((unsigned char)(c >> 8)); } }
     else { pl.push_back((unsigned char)(2 + cs.size())); pl.push_back(1); for (unsigned c : cs) pl.push_back((unsigned char)(c & 0x7f ? c & 0x7f : 'x')); }
   }
